@@ -10,7 +10,6 @@ import (
 	"github.com/martian-lang/martian/martian/core"
 	"github.com/martian-lang/martian/martian/verifsim/vos"
 	"github.com/martian-lang/martian/martian/verifsim/vproc"
-	"github.com/martian-lang/martian/martian/verifsim/vrt"
 )
 
 // ---------------------------------------------------------------------------
@@ -549,11 +548,17 @@ func c15Lock(c *Ctx, prog *Prog, fcfg *FCfg, flags []string) {
 	if c.Plan.Draw(2) == 0 {
 		cfg.JobFaults = map[string]string{}
 	}
-	attemptAt := 30 + c.Plan.Draw(500)
-	var attempted, lockAtStart, unlockedDuring bool
-	var attachErr error
-	var attachOK bool
-	startSeq, endSeq := 0, 0
+	// two attach attempts by other mrp instances while the first one runs: both must
+	// be refused, and neither may disturb the owner's lock
+	type attempt struct {
+		at                         int
+		attempted, lockAtStart, ok bool
+		err                        error
+		startSeq, endSeq           int
+		pid                        int
+	}
+	atts := []*attempt{{at: 30 + c.Plan.Draw(500)}}
+	atts = append(atts, &attempt{at: atts[0].at + 5 + c.Plan.Draw(200)})
 	r := c.RunOnce(cfg, func(r *Run) {
 		if cfg.JobFaults != nil {
 			r.OnJobStart = func(j *JobRec) {
@@ -563,69 +568,100 @@ func c15Lock(c *Ctx, prog *Prog, fcfg *FCfg, flags []string) {
 			}
 		}
 		r.StepHooks = append(r.StepHooks, func() {
-			if attempted || r.Mrp == nil || r.Mrp.Exited || r.Mrp.Gates < attemptAt {
+			for i, a := range atts {
+				a := a
+				if a.attempted || r.Mrp == nil || r.Mrp.Exited || r.Mrp.Gates < a.at {
+					continue
+				}
+				if i > 0 && atts[i-1].endSeq == 0 {
+					continue // one at a time
+				}
+				a.attempted = true
+				_, err := os.Stat(path.Join(r.PsDir, "_lock"))
+				a.lockAtStart = err == nil
+				a.startSeq = vos.NextSeq()
+				name := fmt.Sprintf("mrp%d", i+2)
+				p2 := vproc.NewProc(name, name, []string{name}, nil, r.Root, nil)
+				a.pid = p2.Pid
+				vproc.StartProc(p2, func() int {
+					opts := core.DefaultRuntimeOptions()
+					opts.VdrMode = core.VdrDisable
+					rt, err := opts.NewRuntime()
+					if err != nil {
+						a.err = err
+						a.endSeq = vos.NextSeq()
+						return 1
+					}
+					src, _ := os.ReadFile(path.Join(r.MroDir, "pipeline.mro"))
+					f := core.NewRuntimePipestanceFactory(rt, string(src), path.Join(r.MroDir, "pipeline.mro"), "ps",
+						[]string{r.MroDir}, r.PsDir, "", nil, true, false, nil)
+					ps, err := f.InvokePipeline()
+					if err != nil {
+						ps, err = f.ReattachToPipestance(context.Background())
+					}
+					a.err = err
+					a.ok = err == nil && ps != nil
+					a.endSeq = vos.NextSeq()
+					return 0
+				})
 				return
 			}
-			attempted = true
-			_, err := os.Stat(path.Join(r.PsDir, "_lock"))
-			lockAtStart = err == nil
-			startSeq = vos.NextSeq()
-			p2 := vproc.NewProc("mrp2", "mrp2", []string{"mrp2"}, nil, r.Root, nil)
-			vproc.StartProc(p2, func() int {
-				opts := core.DefaultRuntimeOptions()
-				opts.VdrMode = core.VdrDisable
-				rt, err := opts.NewRuntime()
-				if err != nil {
-					attachErr = err
-					endSeq = vos.NextSeq()
-					return 1
-				}
-				src, _ := os.ReadFile(path.Join(r.MroDir, "pipeline.mro"))
-				f := core.NewRuntimePipestanceFactory(rt, string(src), path.Join(r.MroDir, "pipeline.mro"), "ps",
-					[]string{r.MroDir}, r.PsDir, "", nil, true, false, nil)
-				ps, err := f.InvokePipeline()
-				if err != nil {
-					ps, err = f.ReattachToPipestance(context.Background())
-				}
-				attachErr = err
-				attachOK = err == nil && ps != nil
-				endSeq = vos.NextSeq()
-				return 0
-			})
-			_ = vrt.FaultNone
 		})
 	})
 	c.Res.Class = "lock-" + r.Class()
-	c.Res.Nontrivial = attempted
-	if !attempted || endSeq == 0 {
+	c.Res.Nontrivial = atts[0].attempted
+	if !atts[0].attempted || atts[0].endSeq == 0 {
 		c.Res.Probes["attach-not-attempted"]++
 		return
 	}
-	c.Res.Probes["second-attach-attempts"]++
-	for _, ev := range vos.W.Events {
-		if ev.Seq > startSeq && ev.Seq < endSeq && ev.Path == "ps/_lock" && ev.Op == "remove" && ev.Pid == r.Mrps[0].Pid {
-			unlockedDuring = true
-		}
-	}
-	firstAlive := true
 	pe, _ := vproc.Snapshot()
-	for _, e := range pe {
-		if e.Pid == r.Mrps[0].Pid && (e.Kind == "exit" || e.Kind == "kill") && e.Seq < endSeq {
-			firstAlive = false
+	var info []interface{}
+	foreignRemoval := false
+	for i, a := range atts {
+		if !a.attempted || a.endSeq == 0 {
+			continue
 		}
-	}
-	if lockAtStart && !unlockedDuring && firstAlive {
-		c.Res.Probes["attach-while-locked"]++
-		if attachOK {
-			c.Res.Violations = append(c.Res.Violations, Violation{"C15", "second-mrp-attached-while-locked",
-				"a second instance attached for writing while the first mrp was alive and _lock existed throughout the attempt", r.Steps})
-		} else if attachErr != nil && !strings.Contains(attachErr.Error(), "locked by") {
-			c.Res.Notes = append(c.Res.Notes, "second attach failed with: "+clip(attachErr.Error(), 120))
+		c.Res.Probes["second-attach-attempts"]++
+		unlockedDuring := false
+		for _, ev := range vos.W.Events {
+			if ev.Seq > a.startSeq && ev.Seq < a.endSeq && ev.Path == "ps/_lock" && ev.Op == "remove" && ev.Pid == r.Mrps[0].Pid {
+				unlockedDuring = true
+			}
+		}
+		// an earlier attempt which removed the lock makes later ones meaningless
+		if foreignRemoval {
+			continue
+		}
+		firstAlive := true
+		for _, e := range pe {
+			if e.Pid == r.Mrps[0].Pid && (e.Kind == "exit" || e.Kind == "kill") && e.Seq < a.endSeq {
+				firstAlive = false
+			}
+		}
+		info = append(info, map[string]interface{}{"attempt": i + 1, "lock_at_start": a.lockAtStart, "unlocked_during": unlockedDuring, "ok": a.ok, "err": fmt.Sprint(a.err)})
+		if a.lockAtStart && !unlockedDuring && firstAlive {
+			c.Res.Probes["attach-while-locked"]++
+			if a.ok {
+				c.Res.Violations = append(c.Res.Violations, Violation{"C15", "second-mrp-attached-while-locked",
+					fmt.Sprintf("attempt %d: another instance attached for writing while the first mrp was alive and _lock existed throughout the attempt", i+1), r.Steps})
+			} else if a.err != nil && !strings.Contains(a.err.Error(), "locked by") {
+				c.Res.Notes = append(c.Res.Notes, "second attach failed with: "+clip(a.err.Error(), 120))
+			}
+			// the refused instance must leave the owner's lock alone
+			for _, ev := range vos.W.Events {
+				if ev.Seq > a.startSeq && ev.Path == "ps/_lock" && ev.Pid == a.pid && ev.Err == "" &&
+					(ev.Op == "remove" || ev.Op == "write" || ev.Op == "rename" || ev.Op == "removeall") {
+					foreignRemoval = true
+					c.Res.Violations = append(c.Res.Violations, Violation{"C15", "refused-instance-touched-owners-lock",
+						fmt.Sprintf("attempt %d: the instance which was refused (%v) performed '%s' on _lock held by the live first mrp", i+1, a.err, ev.Op), r.Steps})
+					break
+				}
+			}
 		}
 	}
 	if len(c.Res.Violations) > 0 || c.Res.Sample == nil {
 		s := describeRun(r, true)
-		s["second_attach"] = map[string]interface{}{"lock_at_start": lockAtStart, "unlocked_during": unlockedDuring, "ok": attachOK, "err": fmt.Sprint(attachErr)}
+		s["attach_attempts"] = info
 		c.Res.Sample = s
 	}
 }
